@@ -9,7 +9,9 @@ Open Scope N_scope.
 Inductive obsv :=
   | O (r : tp_ret) (i d : option tp_intr) (last : N) (e : tp_mode) (a : option tp_scope)
   | OF (r : tp_ret) (i d : option tp_intr) (last : N) (e : tp_mode) (a : option tp_scope)
-       (skip : N) (skipafter : option N).   (* tx.Skip / tx.SkipAfter not at their rest values *)
+       (skip : N) (skipafter : option N)    (* tx.Skip / tx.SkipAfter not at their rest values *)
+  | OB (o : obsv) (ra : bool) (rl : Z) (pa : bool) (pl : Z).
+       (* plus tx.RequestBodyAccess / RequestBodyLimit / ResponseBodyAccess / ResponseBodyLimit *)
 
 Inductive case :=
   | Case (w : tp_waf) (ks : list tp_call) (obs : list obsv)
@@ -65,13 +67,23 @@ Definition obsv_eqb (a b : obsv) : bool :=
   | _, _ => false
   end.
 
+(* an observation that also carries the per-transaction body settings *)
+Definition obs_ok (c : tp_cfg) (bm : tp_bmap) (s : tp_state) (r : tp_ret) (o : obsv) : bool :=
+  match o with
+  | OB o' ra rl pa pl =>
+    let b := tp_body_of c bm (st_trace s) in
+    obsv_eqb (observe s r) o' && Bool.eqb (b_reqacc b) ra && (b_reqlim b =? rl)%Z
+    && Bool.eqb (b_respacc b) pa && (b_resplim b =? pl)%Z
+  | _ => obsv_eqb (observe s r) o
+  end.
+
 (* run the model along the calls, comparing every observation *)
-Fixpoint run_cmp (c : tp_cfg) (s : tp_state) (ks : list tp_call) (obs : list obsv) : bool * tp_state :=
+Fixpoint run_cmp (c : tp_cfg) (bm : tp_bmap) (s : tp_state) (ks : list tp_call) (obs : list obsv) : bool * tp_state :=
   match ks, obs with
   | [], [] => (true, s)
   | k :: ks', o :: obs' =>
-    let '(s', r) := tp_step c s k in
-    if obsv_eqb (observe s' r) o then run_cmp c s' ks' obs' else (false, s')
+    let '(s', r) := tb_step c bm s k in
+    if obs_ok c bm s' r o then run_cmp c bm s' ks' obs' else (false, s')
   | _, _ => (false, s)
   end.
 
@@ -93,21 +105,21 @@ Definition ok (cs : case) : bool :=
   match cs with
   | Case w ks obs matched counts =>
     let c := tp_compile w in
-    let '(b, s) := run_cmp c (tp_init c) ks obs in
+    let '(b, s) := run_cmp c (tp_compile_bmap w) (tp_init c) ks obs in
     b && matched_eqb (tp_matched (st_trace s)) matched
       && forallb (fun r => is_some (rr_mark r) || (tp_starter_count (rr_id r) (st_trace s) =? count_lookup (rr_id r) counts)) (w_rules w)
   end.
 
 Definition mismatches (l : list case) : list nat := mismatches_of ok l.
 
-(* the state [run_cmp] ends in is the state of [tp_run] (so [ok] evaluates the functions the
-   theorems are about) *)
-Lemma run_cmp_state c : forall ks obs s, fst (run_cmp c s ks obs) = true ->
-  snd (run_cmp c s ks obs) = tp_run_from c s ks.
+(* the state [run_cmp] ends in is the state of [tb_run] (so [ok] evaluates the functions the theorems are
+   about); without body ctls [tb_step] is [tp_step] (TxPhaseProofs.tb_step_nil) *)
+Lemma run_cmp_state c bm : forall ks obs s, fst (run_cmp c bm s ks obs) = true ->
+  snd (run_cmp c bm s ks obs) = tb_run_from c bm s ks.
 Proof.
   induction ks as [|k ks IH]; intros [|o obs] s H; cbn [run_cmp fst snd] in *; try discriminate; try reflexivity.
-  unfold tp_run_from in *. cbn [fold_left].
-  destruct (tp_step c s k) as [s' r] eqn:E. cbn [fst].
-  destruct (obsv_eqb (observe s' r) o); cbn [fst snd] in *; try discriminate.
+  unfold tb_run_from in *. cbn [fold_left].
+  destruct (tb_step c bm s k) as [s' r] eqn:E. cbn [fst].
+  destruct (obs_ok c bm s' r o); cbn [fst snd] in *; try discriminate.
   apply IH, H.
 Qed.
